@@ -14,6 +14,7 @@ from vlib.spec import S, build, preorder, child_slots, spec_json
 from vlib.universe import core_universe
 
 LEVEL = "exploration"
+TYPECHECK_OK = True  # every generated value conforms to its annotation: shards may run with RUNTIME_TYPE_CHECK on
 RULE = (
     "cases = (tree spec, prune set, filter set, traversal kind); trees from the core universe (all child field "
     "shapes, shared objects, falsy children, deep chains, tuples of 12+); for trees with <= N non-root positions all "
